@@ -206,6 +206,56 @@ def rule_hist(ctx):
         ctx.holds("C04.HIST", f.short, f"{n} two-message histories (2 kinds x ordered sender pairs): routing of the second message is independent of the first", fi=f)
 
 
+def rule_isolated(ctx):
+    """Routers are independent objects: with two routers in one process (one per transport, or a router re-created after
+    a restart) a message processed by one is handed only to the devices and clients registered with that one, and a new
+    router starts empty.  Tables kept at class level are one object for all routers and break exactly this."""
+    from . import routermodel as RM
+    p = ctx.p
+    f = router_cls(p).find_method("process_message")
+    gp = p.cls("indi.message.get_properties.GetProperties")
+    nt = p.cls("indi.message.news.NewTextVector")
+    bad = False
+    n = 0
+    for ci in (gp, nt):
+        for sender in ("client", "none"):
+            n += 1
+
+            def run(it: Interp):
+                RM._CURRENT_IT = it
+                try:
+                    w1 = World(p, 2, 2, {})
+                    w2 = World(p, 2, 2, {})
+                finally:
+                    RM._CURRENT_IT = None
+                for i, o in enumerate(w2.devices):
+                    o.label = f"other-router-device{i}"
+                for i, o in enumerate(w2.clients):
+                    o.label = f"other-router-client{i}"
+                it.w1, it.w2 = w1, w2
+                it.sizes = ([len(w.table(k).items if k != "blob_routing" else w.table(k).pairs) for k in ("clients", "devices", "blob_routing")] for w in (w1, w2))
+                it.sizes = [list(x) for x in it.sizes]
+                m = message_obj(p, ci, device=None)
+                del it.events[:]
+                return it.run_function(Fn(f, w1.router), [m, w1.clients[0] if sender == "client" else Const(None)], {})
+
+            paths = explore(p, run, {"inline": lambda fi, node: fi.cls is router_cls(p) and fi is not f, "strict_keys": True})
+            ctx.paths_enumerated += len(paths)
+            for pa in paths:
+                if pa.outcome != "return":
+                    continue
+                if pa.interp.sizes != [[2, 2, 2], [2, 2, 2]]:
+                    ctx.violated("C04.ISOLATED", f.short, f"two routers built side by side (2 clients, 2 devices each) hold tables of sizes {pa.interp.sizes} (clients, devices, policies): the registration tables are shared between router objects", fi=f, text="shared-tables", witness="Router(); Router()")
+                    bad = True
+                    break
+                foreign = [lab for lab, _, _ in deliveries(pa, "message_from_client") + deliveries(pa, "message_from_device") if lab.startswith("other-router")]
+                if foreign:
+                    ctx.violated("C04.ISOLATED", f.short, f"a <{lower_first(ci.name)}> processed by one router is handed to {sorted(set(foreign))}, which are registered with another router of the same process", fi=f, text=f"cross-router:{ci.name}", witness=f"{ci.name} via router 1")
+                    bad = True
+    if not bad:
+        ctx.holds("C04.ISOLATED", f.short, f"{n} scenarios with two routers in one interpreter state: tables are per router, nothing crosses over", fi=f)
+
+
 def rule_acc(ctx):
     from .driverworld import build_drivers
     p = ctx.p
@@ -273,6 +323,7 @@ def rule_name(ctx):
 RULES = [
     ("C04.DIR", rule_dir, "direction flags of every message class equal the INDI direction table"),
     ("C04.DEV", rule_dev, "from-client branch: each non-sender device that accepts message.device gets the message exactly once, nobody else; no client gets device-bound messages"),
+    ("C04.ISOLATED", rule_isolated, "two routers in one process are independent: per-router tables, no cross-delivery"),
     ("C04.HIST", rule_hist, "two-message histories with different senders: the second routing is independent of the first"),
     ("C04.ACC", rule_acc, "accepts truth table of every routing.Device implementation; abstract methods overridden"),
     ("C04.NAME", rule_name, "Driver.name is the configured name"),
